@@ -81,7 +81,7 @@ def gen_lists(rng, tier):
            ["x", "y", None, "z"], [-1, 1], ["-1", "1"], ["1a", "a1"], ["é", "É"], ["ß", "SS"], ["ǅx", "ǆx"], ["ab", "a b", "aB"], ["A_B", "a b"], ["a b", "A_B"],
            ["a", "b", "c"], [3, 2, 1], ["b", "a"], ["B", "a"], ["x", "X y"], ["it's", 'say "hi"'], ["\\", "/"], ['\\"'], ["a\\"], ["a\nb"], ["µm", "Μm"],
            ["VALUE_NEGATIVE_1", "x"], [-1, -2, 0], ["none", "None "], ["a", "b", None, None]]
-    n = 120 if tier == "quick" else 1200
+    n = 90 if tier == "quick" else 1200
     for _ in range(n):
         r = rng.random()
         k = rng.randint(1, 5)
@@ -566,6 +566,213 @@ def classify(run, fails):
             run.violation("oracle", {**tag, "class": fid, "note": "stage C predicate fails inside the proved guards (or the class is not a listed finding)"})
 
 
+# ------------------------------------------------------------------ twin enums: two declarations that derive ONE class name
+HDR_TW = HDR + r"""
+Require Import OPC.Scopes.
+Definition tw_prefix : str := [102;105;101;108;100;95]%N.
+Definition tw_class (vt : vtype) (t : list (str * evalue)) : option enum_class :=
+  match vt with VStr => str_enum_class t | VInt => int_enum_class t end.
+Definition tw_errs (ds : list cdecl) : option nat :=
+  match model_decls tw_prefix ds with Some (_, errs) => Some (length errs) | None => None end.
+Definition tw_table (ds : list cdecl) (d : cdecl) (vt : vtype) : option enum_class :=
+  match model_decls tw_prefix ds with
+  | Some (tab, _) => match clookup (decl_class tw_prefix d) tab with Some (CEnum t) => tw_class vt t | _ => None end
+  | None => None
+  end.
+Definition onat_eqb (a b : option nat) : bool := match a, b with Some x, Some y => Nat.eqb x y | None, None => true | _, _ => false end.
+"""
+
+TWIN_PAIRS = [
+    (["open", "closed"], ["OPEN", "CLOSED"]), (["a b", "c"], ["a_b", "c"]), (["a-b"], ["a b"]), (["x.y", "z"], ["x y", "z"]),
+    (["9", "8"], ["value_0", "value_1"]), ([1, 2], ["VALUE_1", "VALUE_2"]), ([-1, 0], ["VALUE_NEGATIVE_1", "value_0"]), (["", "a"], ["value_0", "A"]),
+    (["Open", "closed"], ["open", "Closed"]), (["\u00e9t\u00e9"], ["\u00c9T\u00c9"]), (["itemId"], ["ITEMID"]),
+    # controls: legitimately shared (equal tables), properly conflicting (different member names)
+    (["open", "closed"], ["closed", "open"]), (["open", "closed"], ["open", "closed"]), ([3, 1], [1, 3]),
+    (["open", "closed"], ["open", "shut"]), (["open"], ["open", "closed"]), ([1, 2], [1, 3]),
+]
+TWIN_LAYOUTS = ["inline-inline", "inline-component", "property-parameter"]
+
+
+def _real_keys(vs):
+    from openapi_python_client.parser.properties import EnumProperty
+    from openapi_python_client.parser.properties.schemas import Class as C2
+    from openapi_python_client.utils import ClassName, PythonIdentifier
+    try:
+        return EnumProperty.values_from_list(list(vs), C2(name=ClassName("E", ""), module_name=PythonIdentifier("e", "")))
+    except ValueError:
+        return None
+
+
+def twin_cases(rng, tier):
+    import keyword
+    pairs = list(TWIN_PAIRS)
+    # random twins: a variant of a random list with the same member names and different wire values
+    n = 10 if tier == "quick" else 300
+    tries = 0
+    while n > 0 and tries < 20000:
+        tries += 1
+        l = [rng.choice([s for s in ALPHA_HOSTILE if "\\" not in s and "\n" not in s and "\x00" not in s]) for _ in range(rng.randint(1, 3))]
+        v = [rng.choice([s.upper(), s.lower(), s.swapcase(), s.replace(" ", "_"), s.replace("-", " "), s.replace("_", "-"), s.replace(".", "_")]) for s in l]
+        ka, kb = _real_keys(l), _real_keys(v)
+        if ka is None or kb is None or list(ka) != list(kb) or l == v or len(ka) != len(l) or len(set(l)) != len(l) or len(set(v)) != len(v):
+            continue
+        if any(not k.isidentifier() or keyword.iskeyword(k) for k in ka) or not all(vals.is_jsonable_str(s) for s in l + v):
+            continue
+        pairs.append((l, v))
+        n -= 1
+    out = []
+    for a, b in pairs:
+        for layout in TWIN_LAYOUTS:
+            for swap in (False, True):
+                va, vb = (b, a) if swap else (a, b)
+                out.append({"va": va, "vb": vb, "layout": layout})
+    for j, c in enumerate(out):
+        c["j"] = j
+    return out
+
+
+def twin_sites(c):
+    """The two declarations of a case in the order the parser processes them: (kind, schema name / op, property, values, cdecl parent, cdecl name)."""
+    j, va, vb = c["j"], c["va"], c["vb"]
+    if c["layout"] == "inline-inline":
+        return [("prop", f"Ord{j}", "item_status", va, f"Ord{j}", "item_status"), ("prop", f"Ord{j}Item", "status", vb, f"Ord{j}Item", "status")]
+    if c["layout"] == "inline-component":
+        return [("comp", f"Ord{j}ItemStatus", None, vb, "", f"Ord{j}ItemStatus"), ("prop", f"Ord{j}", "item_status", va, f"Ord{j}", "item_status")]
+    return [("prop", f"Ord{j}", "item_status", va, f"Ord{j}", "item_status"), ("param", f"ord{j}", "item_status", vb, f"ord{j}", "item_status")]
+
+
+def stage_twins(run, tier):
+    from openapi_python_client.parser.properties.schemas import Class
+    cfg0 = vals.ref_schemas({})[0]
+    modname = lambda n: str(Class.from_string(string=n, config=cfg0).module_name)
+    from openapi_python_client.utils import PythonIdentifier
+    epname = lambda n: str(PythonIdentifier(n, cfg0.field_prefix))
+    cases = twin_cases(run.rng, tier)
+    terms, meta, fails = [], [], []
+    groups = [(cases[k:k + 30], False) for k in range(0, len(cases), 30)]
+    lit_cases = [c for c in cases if c["layout"] == "inline-inline"][: (24 if tier == "quick" else 200)]
+    groups += [(lit_cases[k:k + 30], True) for k in range(0, len(lit_cases), 30)]
+    import re
+    for grp, literal in groups:
+        schemas, paths = {}, {}
+        for c in grp:
+            for kind, owner, prop, vs, _, _ in twin_sites(c):
+                if kind == "prop":
+                    schemas[owner] = {"type": "object", "required": [prop], "properties": {prop: {"enum": vs}}}
+                elif kind == "comp":
+                    schemas[owner] = {"enum": vs}
+                else:
+                    paths[f"/t{c['j']}"] = {"get": {"operationId": owner, "parameters": [{"name": prop, "in": "query", "required": True, "schema": {"enum": vs}}],
+                                                   "responses": {"200": {"description": "ok"}}}}
+        # document order of components.schemas is the processing order of the models
+        with impl.Gen(impl.base_doc(components={"schemas": schemas}, paths=paths), cfg={"literal_enums": literal}) as g:
+            diag = g.diag()
+            files = g.files() if g.out.exists() else {}
+            if g.exc is not None or not files:
+                run.violation("oracle", {"note": "twin-enum document makes the generator raise", "exc": repr(g.exc), "input": [[c["va"], c["vb"]] for c in grp][:5]})
+                continue
+            jobs, jmap = [], []
+            for c in grp:
+                for s, (kind, owner, prop, vs, _, _) in enumerate(twin_sites(c)):
+                    probes = []
+                    for pv in list(c["va"]) + list(c["vb"]) + ["zz", "", 7, "OPEN "]:
+                        if not any(same(pv, q) for q in probes):
+                            probes.append(pv)
+                    if kind == "prop" and f"models/{modname(owner)}.py" in files:
+                        jobs.append({"what": "model", "module": f"models.{modname(owner)}", "cls": owner, "attrs": [prop], "construct": False, "probes": [{prop: enc_probe(pv)} for pv in probes]})
+                        jmap.append((c, s, probes))
+                    elif kind == "param" and f"api/default/{epname(owner)}.py" in files:
+                        jobs.append({"what": "endpoint", "module": f"api.default.{epname(owner)}"})
+                        jmap.append((c, s, probes))
+                    elif kind == "comp" and f"models/{modname(owner)}.py" in files:
+                        jobs.append({"what": "model", "module": f"models.{modname(owner)}", "cls": owner, "attrs": [], "construct": False, "probes": []})
+                        jmap.append((c, s, probes))
+            inp = json.dumps({"pkg_parent": str(g.out.parent), "pkg": g.out.name, "jobs": jobs})
+            env = {k: v for k, v in os.environ.items() if k != "PYTHONPATH"}
+            env["PYTHONHASHSEED"] = "0"
+            r = subprocess.run([PY, "-I", "-W", "ignore", str(Path(__file__).resolve().parents[1] / "lib" / "gen_runner.py")], input=inp, capture_output=True, text=True, timeout=600, env=env)
+            try:
+                res = json.loads(r.stdout.split("\n@@RESULT@@\n", 1)[1])
+            except Exception:
+                res = None
+            if not isinstance(res, list):
+                run.violation("oracle", {"note": "runner failed on a twin-enum client", "detail": (r.stderr or r.stdout)[-400:]})
+                continue
+            byjob = {(c["j"], s): (rr, probes) for (c, s, probes), rr in zip(jmap, res)}
+            for c in grp:
+                sites = twin_sites(c)
+                tag = {"input": [c["va"], c["vb"]], "layout": c["layout"], "literal_enums": literal}
+                generated = 0
+                cd = lambda s: f"(DEnum {cstr(s[4])} {cstr(s[5])} {cevs(s[3])})"
+                ds = clist([cd(s) for s in sites], "cdecl")
+                for s, site in enumerate(sites):
+                    kind, owner, prop, vs, _, _ = site
+                    run.note_case({**tag, "site": s}, nontrivial=True, kind="twin:" + c["layout"])
+                    hit = byjob.get((c["j"], s))
+                    hasdiag = any(re.search(r"/%s\b" % re.escape(owner), (h or "") + (d or "")) or re.search(r"/t%d\b" % c["j"], (h or "") + (d or "")) and kind == "param" for _, h, d in diag)
+                    if hit is None:
+                        if not hasdiag:
+                            fails.append((tag, f"{kind} {owner}.{prop} was not generated and no diagnostic names it"))
+                        continue
+                    generated += 1
+                    rr, probes = hit
+                    if "import_error" in rr or "runner_error" in rr:
+                        fails.append((tag, f"{kind} {owner}: {rr.get('import_error') or rr.get('runner_error')}"))
+                        continue
+                    vt = vals.cvtype(type(vs[0]))
+                    # the class this site uses: members must be exactly the values ITS OWN schema lists
+                    if literal:
+                        ls = list(rr.get("literals", {}).values())
+                        mvals = [dec_value(x) for x in ls[0]["set"]] if ls else None
+                    else:
+                        es = list(rr.get("enums", {}).values())
+                        mvals = [dec_value(v) for k, v in es[0]["members"] if k in es[0]["canonical"]] if len(es) == 1 else None
+                        if len(es) == 1:
+                            nmap = {unicodedata.normalize("NFKC", k): k for k in (_real_keys(vs) or {})}
+                            mem = [(nmap.get(k, k), dec_value(v)) for k, v in es[0]["members"]]
+                            terms.append(f"ocls_eqb (tw_table {ds} {cd(site)} {vt}) (Some {clist(['(%s, %s)' % (cstr(k), vals.cjval(v)) for k, v in mem], '(str * jval)')})")
+                            meta.append({**tag, "what": "class table of site %d" % s, "impl": mem, "term": f"tw_table {ds} {cd(site)} {vt}"})
+                    if kind != "comp" or not literal:
+                        if mvals is None:
+                            fails.append((tag, f"{kind} {owner}: no single enum class / VALUES set visible from the generated module"))
+                        elif not (all(any(same(v, w) for w in mvals) for v in vs) and all(any(same(v, w) for w in vs) for v in mvals)):
+                            fails.append((tag, f"{kind} {owner}.{prop or ''} lists {vs!r} but its generated class holds {mvals!r}"))
+                    if kind == "prop":
+                        for pv, pr in zip(probes, rr["probes"]):
+                            listed = any(same(pv, v) for v in vs)
+                            if not listed and any((not isinstance(pv, str)) and (not isinstance(v, str)) and pv == v for v in vs):
+                                continue
+                            if "fail" in pr:
+                                if listed:
+                                    fails.append((tag, f"{owner}.{prop} lists {pv!r} but from_dict rejects it ({pr['fail']})"))
+                                continue
+                            a = pr["attrs"][prop]
+                            got = dec_value(a["value"]) if a["t"] == "member" else dec_value(a)
+                            back = dec_value(pr["to_dict"]["v"][prop]) if "to_dict" in pr and prop in pr["to_dict"].get("v", {}) else ("?",)
+                            if not listed:
+                                fails.append((tag, f"{owner}.{prop} lists {vs!r} but from_dict accepts the unlisted {pv!r}"))
+                            elif not same(got, pv) or not same(back, pv):
+                                fails.append((tag, f"{owner}.{prop}: listed {pv!r} decodes to {got!r} and encodes to {back!r}"))
+                if not literal:
+                    terms.append(f"onat_eqb (tw_errs {ds}) (Some {len(sites) - generated}%nat)")
+                    meta.append({**tag, "what": "number of reported declarations", "impl": len(sites) - generated, "term": f"tw_errs {ds}"})
+    bad = run_cases(HDR_TW, terms)
+    for i in bad[:8]:
+        m = meta[i]
+        model = coq_eval(HDR_TW, m["term"])
+        run.violation("correspondence", {"what": m["what"], "input": m["input"], "layout": m["layout"], "impl": str(m["impl"])[:300], "model": model[-400:],
+                                         "note": "EnumProperty.build's handling of two enums with one class name disagrees with Scopes.model_decls"})
+    seen = set()
+    for tag, detail in fails:
+        k = json.dumps([tag["input"], tag["layout"], tag["literal_enums"]], default=str)
+        if k in seen:
+            continue
+        seen.add(k)
+        run.violation("oracle", {**tag, "detail": detail[:400],
+                                 "note": "document oracle: an enum-typed property generated without a diagnostic must accept exactly the values its own schema lists (two enums sharing one class name)"})
+    return len(terms), len(bad)
+
+
 def run(run, tier, replay=None):
     lists = gen_lists(run.rng, tier)
     if replay:
@@ -578,8 +785,11 @@ def run(run, tier, replay=None):
                 "distinct by hash of (list, style, probe)")
     n1, b1 = stage_b_parser(run, tier, lists)
     n2, b2 = stage_gen(run, tier, lists)
+    n3, b3 = stage_twins(run, tier)
+    n2, b2 = n2 + n3, b2 + b3
     run.corr = {"cases": n1 + n2, "mismatches": b1 + b2,
                 "what": "EnumProperty.values_from_list == Values.values_from_list; Enum/LiteralEnumProperty.build == Enums.enum_build; generated Enum members / *_VALUES set / "
-                        "from_dict decode of every probe / const check == Enums.str_enum_class,int_enum_class,literal_values,enum_decode,nullable_*_decode,const_accepts (vm_compute)"}
+                        "from_dict decode of every probe / const check == Enums.str_enum_class,int_enum_class,literal_values,enum_decode,nullable_*_decode,const_accepts (vm_compute); "
+                        "two enums deriving one class name (inline/inline, inline/component, property/parameter): reported declarations and the shared class table == Scopes.model_decls"}
     run.assumptions += ["CPython's enum.Enum value lookup, set membership and == are represented by Enums.enum_lookup / literal_check / py_eq (validated by the correspondence only)",
                         "g_repr_printable restricts the model's string-literal lexer (no \\x/\\u escapes); literal enums over other strings are covered by the correspondence only"]
